@@ -18,6 +18,25 @@ func verifC05RoleConflict() {
 	w.pairAll()
 	a := w.a
 	a.tieBreaker = verifU64()
+	// arbitrary pair state, bookkeeping and selection: a conflict must leave all of it alone
+	for _, p := range a.checklist {
+		p.state = CandidatePairState(verifInt(1, 4))
+		p.nominated = verifBool()
+		p.nominateOnBindingSuccess = verifBool()
+		p.renominateOnBindingSuccess = verifBool()
+		p.bindingRequestCount = uint16(verifInt(0, 9))
+	}
+	if verifChoice(2) == 1 {
+		sp := a.checklist[0]
+		verifAssume(verifAnd(sp.state == CandidatePairStateSucceeded, sp.nominated))
+		a.selectedPair.Store(sp)
+		a.connectionState = ConnectionStateConnected
+	}
+	if cs, ok := a.selector.(*controllingSelector); ok && verifChoice(2) == 1 {
+		np := a.checklist[0]
+		verifAssume(verifAnd(np.state == CandidatePairStateSucceeded, np.nominated))
+		cs.nominatedPair = np
+	}
 	remoteTB := verifU64()
 	ctrl := verifChoice(4)
 	useCand := verifChoice(2) == 1
@@ -41,6 +60,13 @@ func verifC05RoleConflict() {
 		flipped := after.controlling != before.controlling
 		verifAssert(flipped == verifNot(keep), "role-flips-iff-tie-breaker-loses")
 		verifAssert(verifImplies(flipped, a.selector != selBefore), "selector-replaced-on-switch")
+		if flipped { // forks
+			ncs, isCtl := a.selector.(*controllingSelector)
+			verifAssert(isCtl == after.controlling, "the-new-selector-is-the-one-of-the-new-role")
+			if isCtl {
+				verifAssert(ncs.nominatedPair == nil, "the-new-controlling-selector-starts-without-a-nomination-in-progress")
+			}
+		}
 		verifAssert(verifImplies(verifNot(flipped), a.selector == selBefore), "selector-kept-when-role-kept")
 		nSent := after.sent - before.sent
 		verifAssert(verifIteInt(keep, 1, 0) == nSent, "487-sent-iff-role-kept,nothing-sent-on-switch")
@@ -54,6 +80,8 @@ func verifC05RoleConflict() {
 				var ec stun.ErrorCodeAttribute
 				err := ec.GetFrom(r)
 				verifAssert(err == nil && ec.Code == stun.CodeRoleConflict, "reply-carries-487")
+				verifAssert(stun.NewShortTermIntegrity(verifLocalPwd).Check(r) == nil, "reply-is-integrity-protected-with-the-local-password")
+				verifAssert(w.conns[0].sent[0].to.String() == w.remotes[0].addr().String(), "reply-goes-to-the-request's-source")
 			}
 		} else {
 			verifReach("switch")
